@@ -1,11 +1,33 @@
 """bin/check configuration of property C02 (see bin/props.py)."""
 
-PROP = {
-    "lean": "MpsProps.C02",
-    "theorems": [],
-    "generated": [],
-    "suites": [{"name": "sess-keygen", "quick": 12, "thorough": 200}],
-    "propfields": {"sess-keygen": ["ok"]},
-    "level_text": "Proof + judged sessions: the algebra behind the property is a set of Lean theorems over an arbitrary field / module (see theorem list); key material returned by real key generations (FROST, FROST-Taproot, Doerner, CMP) over random n, every threshold, short/long/non-ASCII ids and delivery orders is judged in Lean: same group key and table everywhere, own share matches own entry, EVERY (t+1)-subset reconstructs one key whose public key is the group key (shares and table entries).",
-    "level_note": "Real sessions are sampled (they cost up to seconds each); universality comes from the theorems about the formulas plus the per-function differentials (suite alg) showing that the code computes those formulas.",
-}
+PROP = {'lean': 'MpsProps.C02',
+ 'theorems': ['Mps.C02alg.keygen_consistent',
+              'Mps.C02alg.keygen_consistent_honest',
+              'Mps.C02alg.reconstruct_any_subset',
+              'Mps.C02alg.reconstruct_any_subset_keygen',
+              'Mps.C02alg.reconstruct_any_subset_public',
+              'Mps.C02alg.reconstruct_keypair',
+              'Mps.C02alg.reconstruct_fails_degree_succ',
+              'Mps.C02alg.doerner_keygen_consistent'],
+ 'generated': ['Mps.AlgGen.gen_cmpKeygenChecks',
+               'Mps.AlgGen.gen_cmpKeygenFinal',
+               'Mps.AlgGen.gen_cmpKeygenVss',
+               'Mps.AlgGen.gen_cmpPublicPoint',
+               'Mps.AlgGen.gen_expAdd',
+               'Mps.AlgGen.gen_expConstant',
+               'Mps.AlgGen.gen_expDegree',
+               'Mps.AlgGen.gen_expEvaluate',
+               'Mps.AlgGen.gen_expSum',
+               'Mps.AlgGen.gen_frostKeygenChecks',
+               'Mps.AlgGen.gen_frostKeygenFinal',
+               'Mps.AlgGen.gen_frostKeygenVss',
+               'Mps.AlgGen.gen_newPolynomialExponent',
+               'Mps.AlgGen.gen_polyEvaluate'],
+ 'suites': [{'name': 'sess-keygen', 'quick': 12, 'thorough': 200}, {'name': 'alg', 'quick': 600, 'thorough': 28000}],
+ 'propfields': {'sess-keygen': ['ok'], 'alg': ['valid', 'match', 'ok']},
+ 'level_text': 'Proof + judged sessions: the algebra behind the property is a set of Lean theorems over an arbitrary field / module (see theorem '
+               'list); key material returned by real key generations (FROST, FROST-Taproot, Doerner, CMP) over random n, every threshold, '
+               'short/long/non-ASCII ids and delivery orders is judged in Lean: same group key and table everywhere, own share matches own entry, '
+               'EVERY (t+1)-subset reconstructs one key whose public key is the group key (shares and table entries).',
+ 'level_note': 'Real sessions are sampled (they cost up to seconds each); universality comes from the theorems about the formulas plus the '
+               'per-function differentials (suite alg) showing that the code computes those formulas.'}
